@@ -28,6 +28,11 @@ def conditions(tier):
     for codec in ("Rooms", "Rooms_skip", "Rooms_redundant", "ValuedRooms", "Grid_SpacesHex"):
         for (h, w) in ([(0, 1), (1, 0), (1, 2), (2, 2)] if q else dims):
             cs.append(C(HF, codec, "h_text", h, w, l=2 if (q and h * w == 4) else 3, t=T, key="h_text:%s:%s" % (codec, "dim0" if h * w == 0 else ("1xN" if min(h, w) == 1 else "HxW"))))
+    # histories: the same (module-level) codec object used for another board size earlier in the process
+    priors = {"nurikabe": "2,2,1i", "masyu": "2,3,00", "slitherlink": "2,2,gc", "sudoku": "3,1,1h", "nurimisaki": "2,2,.i", "yajilin": "2,2,11b",
+              "heyawake": "2,2,00h", "lits": "2,2,00", "norinori": "2,2,00"}
+    for codec in PUZZLES:
+        cs.append(C(HF, codec, "h_text", 1, 2, l=2 if codec == "yajilin" else 3, t=T, VERIF_PRIOR=priors[codec], key="h_text-after-other-size:" + codec))
     for codec in PUZZLES:
         cs.append(C(HF, codec, "h_url_fields", t=4 * T, VERIF_DMAX=2 if q else 3, key="url-fields:" + codec))
     for codec in (("nurikabe", "heyawake") if q else PUZZLES):
@@ -52,6 +57,7 @@ def run(tier, only=None):
                      "the nine puzzle codecs' *_COMBINATOR", "YajilinClue.deserialize"]
     rep.bounds = {"bodies": "EVERY Unicode text of length <= 3 (4 on two-cell boards for the hex codecs) per codec and per declared (height,width)",
                   "declared dimensions": "0..2 x 0..2 incl. zero (quick), 0..3 x 0..3 (thorough), one condition per pair",
+                  "histories": "each puzzle codec additionally after a decode + encode of another board size in the same process",
                   "URL level": "symbolic width/height/puzzle name/allow_failure/return_size with bodies from a fixed list; fully symbolic url of "
                   "length <= 5/6",
                   "non-ASCII decimal digits reaching int()": "finite table (every Nd character in every position of 5 seed bodies, 9 codecs)"}
